@@ -303,9 +303,10 @@ func TestVerifC20Decision(t *testing.T) {
 			copy(wk[:], net.ParseIP("64:ff9b::"))
 			pfx = []vfC20Pfx{{wk, 96, true}}
 		}
-		clientNets := rapid.SampledFrom([][]string{nil, {"2001:db8:c::/48"}, {"198.51.100.0/24", "2001:db8:c::/48"}, {"garbage"}}).Draw(rt, "clientnets")
+		clientNets := rapid.SampledFrom([][]string{nil, {"2001:db8:c::/48"}, {"198.51.100.0/24", "2001:db8:c::/48"}, {"garbage"}, {"::/0"}, {"0.0.0.0/0"}, {"0.0.0.0/0", "2001:db8:c::/48"},
+			{"::/0", "198.51.100.0/24"}}).Draw(rt, "clientnets")
 		cfg.DNS64.ClientNetworks = clientNets
-		exZones := rapid.SampledFrom([][]string{nil, {"excluded.test"}, {"Example.ORG.", "x.y."}}).Draw(rt, "exzones")
+		exZones := rapid.SampledFrom([][]string{nil, nil, {"excluded.test"}, {"Example.ORG.", "x.y."}, {"."}}).Draw(rt, "exzones")
 		cfg.DNS64.ExcludeZones = exZones
 		d := New(cfg)
 		if d == nil {
@@ -361,7 +362,7 @@ func TestVerifC20Decision(t *testing.T) {
 		soaTTL, soaMin := uint32(0), uint32(0)
 		hasSOA := rapid.IntRange(0, 3).Draw(rt, "soa") != 0
 		if hasSOA {
-			soaTTL = rapid.SampledFrom([]uint32{5, 45, 300, 3600}).Draw(rt, "soattl")
+			soaTTL = rapid.SampledFrom([]uint32{0, 5, 45, 300, 3600}).Draw(rt, "soattl")
 			soaMin = rapid.SampledFrom([]uint32{0, 30, 300, 86400}).Draw(rt, "soamin")
 			soa, _ := dns.NewRR(fmt.Sprintf("test. %d IN SOA ns.test. host.test. 1 2 3 4 %d", soaTTL, soaMin))
 			up.Ns = append(up.Ns, soa)
@@ -441,8 +442,8 @@ func TestVerifC20Decision(t *testing.T) {
 			if !strings.HasSuffix(z, ".") {
 				z += "."
 			}
-			if lname == z || strings.HasSuffix(lname, "."+z) {
-				zoneEx = true
+			if z == "." || lname == z || strings.HasSuffix(lname, "."+z) {
+				zoneEx = true // every name lies in the root zone
 			}
 		}
 		eligible := true
@@ -495,8 +496,9 @@ func TestVerifC20Decision(t *testing.T) {
 				}
 			}
 			if hasSOA {
+				// RFC 2308 §5: the negative TTL is the smaller of the SOA's TTL and its MINIMUM - zero included
 				neg := soaTTL
-				if soaMin > 0 && soaMin < neg {
+				if soaMin < neg {
 					neg = soaMin
 				}
 				if neg < maxTTL {
